@@ -14,6 +14,7 @@ package vrt
 import (
 	"fmt"
 	"os"
+	"path/filepath"
 	"reflect"
 	"sort"
 	"sync"
@@ -494,6 +495,89 @@ func AtomicLoadUint64(p *uint64, site string) uint64 {
 	return atomic.LoadUint64(p)
 }
 
+// ---- the file system namespace as shared locations. A path is a location: creating, truncating, removing or renaming
+// it is a write, opening it read-only, reading it or asking about it is a read. Two such accesses of different threads,
+// one of them a write, not ordered by happens-before, are a race like any other (a temporary file two builds both pick).
+// A write is also a scheduling point, so that the schedules around it are explored.
+
+type fsState struct {
+	has   bool
+	wT    int
+	wVC   []int
+	wSite string
+	rVC   map[int][]int
+	rSite map[int]string
+}
+
+var fsWords = map[string]*fsState{}
+
+// FSAccesses counts the file system accesses seen in the current execution.
+var FSAccesses int
+
+func fsAccess(path string, write bool, site string) {
+	if !active || cur == nil {
+		return
+	}
+	if abs, err := filepath.Abs(path); err == nil {
+		path = abs
+	}
+	FSAccesses++
+	me := cur
+	if write {
+		yield()
+	}
+	st := fsWords[path]
+	if st == nil {
+		st = &fsState{rVC: map[int][]int{}, rSite: map[int]string{}}
+		fsWords[path] = st
+	}
+	where := "file " + path
+	kind := "read"
+	if write {
+		kind = "write"
+	}
+	if st.has && st.wT != me.id && !vcLeq(st.wVC, me.vc) {
+		report(where, true, fmt.Sprintf("T%d write at %s", st.wT, st.wSite), fmt.Sprintf("T%d %s at %s", me.id, kind, site))
+	}
+	if write {
+		for t, rv := range st.rVC {
+			if t != me.id && !vcLeq(rv, me.vc) {
+				report(where, true, fmt.Sprintf("T%d read at %s", t, st.rSite[t]), fmt.Sprintf("T%d write at %s", me.id, site))
+			}
+		}
+		st.has, st.wT, st.wVC, st.wSite = true, me.id, vcCopy(me.vc), site
+		st.rVC, st.rSite = map[int][]int{}, map[int]string{}
+	} else {
+		st.rVC[me.id] = vcCopy(me.vc)
+		st.rSite[me.id] = site
+	}
+}
+
+// FSW / FSR are identity functions on a path argument.
+func FSW(path string, site string) string { fsAccess(path, true, site); return path }
+func FSR(path string, site string) string { fsAccess(path, false, site); return path }
+
+func OpenFile(name string, flag int, perm os.FileMode, site string) (*os.File, error) {
+	fsAccess(name, flag&(os.O_WRONLY|os.O_RDWR|os.O_CREATE|os.O_TRUNC|os.O_APPEND) != 0, site)
+	return os.OpenFile(name, flag, perm)
+}
+
+func CreateTemp(dir, pattern string, site string) (*os.File, error) {
+	f, err := os.CreateTemp(dir, pattern)
+	if err == nil {
+		fsAccess(f.Name(), true, site)
+	}
+	return f, err
+}
+
+func MkdirTemp(dir, pattern string, site string) (string, error) {
+	d, err := os.MkdirTemp(dir, pattern)
+	if err == nil {
+		fsAccess(d, true, site)
+	}
+	return d, err
+}
+
 // ---- other synchronisation objects (sync.Pool, sync.Map ...): scheduling points
 // with conservative happens-before (every such operation orders after all earlier ones)
 
@@ -664,6 +748,7 @@ func Run(pfx []int, bodies ...func()) (res Result) {
 	BeginChoices(pfx)
 	Events, Races, raceSeen = nil, nil, map[string]bool{}
 	words = map[uintptr]*wordState{}
+	fsWords, FSAccesses = map[string]*fsState{}, 0
 	muVC, atomVC = map[*sync.Mutex][]int{}, map[unsafe.Pointer][]int{}
 	syncVC = nil
 	SharedReads, SharedWrites, AllAccesses = 0, 0, 0
